@@ -37,7 +37,7 @@ fn main() {
             usage();
         }
         match args[1].as_str() {
-            p @ ("C01" | "C02") => {
+            p @ ("C01" | "C02" | "C10" | "C12") => {
                 let kf = report::KnownFindings::load();
                 let mut run = report::Run::new(p, tier, "rawx");
                 rawx_run::add(&mut run, &kf, p, tier, if tier == "quick" { 40 } else { 1500 });
